@@ -433,6 +433,105 @@ pub fn oracle_triple(t: &Triple, st: &mut Stats) -> Verdict {
 // 4. accessors                                                       //
 ////////////////////////////////////////////////////////////////////////
 
+/// One call on a `Labels` iterator.
+#[derive(Clone, Debug, Serialize, Deserialize, PartialEq, Eq, Hash)]
+pub enum ItOp {
+    Next,
+    NextBack,
+    Nth(u8),
+    NthBack(u8),
+    /// skip(n) as an adapter, then one `next` and one `next_back` on it, then back to the plain iterator
+    SkipNext(u8),
+    Len,
+}
+
+#[derive(Clone, Debug, Serialize, Deserialize, PartialEq, Eq, Hash)]
+pub struct IterCase {
+    pub name: MName,
+    pub ops: Vec<ItOp>,
+}
+
+/// `Name::labels()` is a double-ended exact-size iterator over name[0..len]: every method of the
+/// Iterator / DoubleEndedIterator / ExactSizeIterator interfaces must behave as on a VecDeque of the
+/// labels, whatever was consumed from either end before.
+pub fn oracle_label_iterator(c: &IterCase, st: &mut Stats) -> Verdict {
+    st.eval();
+    let name = qname(&c.name);
+    let mut model: std::collections::VecDeque<Vec<u8>> = c.name.labels.iter().cloned().collect();
+    model.push_back(Vec::new());
+    let mut it = name.labels();
+    let mut both_ends = (false, false);
+    for (i, op) in c.ops.iter().enumerate() {
+        let what = || format!("{}: call #{i} {op:?} after {:?}", c.name.to_text(), &c.ops[..i]);
+        match op {
+            ItOp::Next => {
+                let got = guarded!("labels.next", it.next().map(|l| l.octets().to_vec()));
+                ensure!(got == model.pop_front(), "labels-iterator", "{}: got {got:?}", what());
+                both_ends.0 = true;
+            }
+            ItOp::NextBack => {
+                let got = guarded!("labels.next_back", it.next_back().map(|l| l.octets().to_vec()));
+                ensure!(got == model.pop_back(), "labels-iterator", "{}: got {got:?}", what());
+                both_ends.1 = true;
+            }
+            ItOp::Nth(n) => {
+                let got = guarded!("labels.nth", it.nth(*n as usize).map(|l| l.octets().to_vec()));
+                let want = {
+                    let k = (*n as usize).min(model.len());
+                    model.drain(..k);
+                    model.pop_front()
+                };
+                ensure!(got == want, "labels-iterator", "{}: got {got:?}, a deque of the labels gives {want:?}", what());
+            }
+            ItOp::NthBack(n) => {
+                let got = guarded!("labels.nth_back", it.nth_back(*n as usize).map(|l| l.octets().to_vec()));
+                let want = {
+                    let k = (*n as usize).min(model.len());
+                    let keep = model.len() - k;
+                    model.truncate(keep);
+                    model.pop_back()
+                };
+                ensure!(got == want, "labels-iterator", "{}: got {got:?}, a deque of the labels gives {want:?}", what());
+            }
+            ItOp::SkipNext(n) => {
+                let mut sk = it.clone().skip(*n as usize);
+                let a = guarded!("labels.skip.next_back", sk.next_back().map(|l| l.octets().to_vec()));
+                let b = guarded!("labels.skip.next", sk.next().map(|l| l.octets().to_vec()));
+                let mut m2 = model.clone();
+                let k = (*n as usize).min(m2.len());
+                m2.drain(..k);
+                let (wa, wb) = (m2.pop_back(), m2.pop_front());
+                ensure!((a.clone(), b.clone()) == (wa.clone(), wb.clone()), "labels-iterator", "{}: skip({n}) then next_back / next gave {a:?} / {b:?}, a deque gives {wa:?} / {wb:?}", what());
+            }
+            ItOp::Len => {}
+        }
+        let len = guarded!("labels.len", it.len());
+        ensure!(len == model.len(), "labels-iterator-len", "{}: len() = {len}, {} labels remain", what(), model.len());
+        let hint = guarded!("labels.size_hint", it.size_hint());
+        ensure!(hint == (model.len(), Some(model.len())), "labels-iterator-len", "{}: size_hint() = {hint:?}", what());
+    }
+    let rest: Vec<Vec<u8>> = guarded!("labels.collect", it.map(|l| l.octets().to_vec()).collect());
+    ensure!(rest == model.iter().cloned().collect::<Vec<_>>(), "labels-iterator", "{}: after {:?} the iterator yields {rest:?}, expected {model:?}", c.name.to_text(), c.ops);
+    if both_ends.0 && both_ends.1 {
+        st.class("labels-consumed-from-both-ends");
+        st.nontrivial(c, || json!({"name": c.name.to_text(), "ops": format!("{:?}", c.ops)}));
+    }
+    Ok(())
+}
+
+fn iter_case() -> impl Strategy<Value = IterCase> {
+    let op = prop_oneof![
+        3 => Just(ItOp::Next),
+        3 => Just(ItOp::NextBack),
+        3 => (0u8..6).prop_map(ItOp::Nth),
+        3 => (0u8..6).prop_map(ItOp::NthBack),
+        1 => (0u8..130).prop_map(ItOp::Nth),
+        2 => (0u8..5).prop_map(ItOp::SkipNext),
+        1 => Just(ItOp::Len),
+    ];
+    (any_name(), prop::collection::vec(op, 1..10)).prop_map(|(name, ops)| IterCase { name, ops })
+}
+
 pub fn oracle_accessors(m: &MName, st: &mut Stats) -> Verdict {
     st.eval();
     let wire = m.wire();
@@ -731,6 +830,7 @@ pub fn run(ctx: &Ctx, report: &mut Report) {
         oracle_triple,
     );
     run_prop(ctx, report, PropSpec { name: "accessors", cases: t.pick(60_000, 1_000_000), max_shrink_iters: 4096 }, any_name, oracle_accessors);
+    run_prop(ctx, report, PropSpec { name: "label-iterator", cases: t.pick(80_000, 1_500_000), max_shrink_iters: 4096 }, iter_case, oracle_label_iterator);
     run_prop(ctx, report, PropSpec { name: "builder", cases: t.pick(100_000, 2_000_000), max_shrink_iters: 4096 }, builder_case, oracle_builder);
 }
 
@@ -742,6 +842,7 @@ pub fn replay(check: &str, case: &serde_json::Value) -> Verdict {
         "pair" => replay_case::<Pair, _>(case, oracle_pair),
         "triple" => replay_case::<Triple, _>(case, oracle_triple),
         "accessors" => replay_case::<MName, _>(case, oracle_accessors),
+        "label-iterator" => replay_case::<IterCase, _>(case, oracle_label_iterator),
         "builder" => replay_case::<BuilderCase, _>(case, oracle_builder),
         _ => {
             eprintln!("INFRA: unknown sub-check {check}");
